@@ -80,6 +80,9 @@ def lex_text(rs, cfg, rng, vary=True):
         opts.append('interactive')
     elif cfg.interactive is False:
         opts.append('batch')
+    if getattr(cfg, 'always_interactive', False):
+        # the buffer is treated as a terminal: the built-in input routine reads with getc() up to a newline
+        opts.append('always-interactive')
     prologue = '%{\nstatic void fv_buffer_op(int op, long a, long b FV_PROTO_LAST);\n%}'
     act = lambda i: 'ACT(%d);' % i
     if cfg.backend == 'cxx':
